@@ -31,7 +31,9 @@ VARIANTS = {
     'idn-extra':    ('gcc', ['-O2'], 'idn', ['-DEAV_EXTRA']),
     'idnkit-extra': ('gcc', ['-O2'], 'idnkit', ['-DEAV_EXTRA']),
 }
+VARIANTS['debug'] = ('gcc', ['-O0', '-g'], 'idn2', ['-D_DEBUG'])          # the Makefile's `make debug` target: -g -D_DEBUG compiles trace statements into the validators
 _OPT7 = ['-DRFC6531_FOLLOW_RFC5322', '-DRFC6531_FOLLOW_RFC20', '-DLABELS_ALLOW_UNDERSCORE']
+VARIANTS['asan-opt7'] = (VARIANTS['asan'][0], VARIANTS['asan'][1], 'idn2', _OPT7)        # C06 on the code that only the build options compile
 VARIANTS['cov-opt7'] = (VARIANTS['cov'][0], VARIANTS['cov'][1], 'idn2', _OPT7)          # C14 on the code that only the build options compile
 VARIANTS['tsan-opt7'] = (VARIANTS['tsan'][0], VARIANTS['tsan'][1], 'idn2', _OPT7)
 for i in range(8):
